@@ -45,6 +45,30 @@ CHECKS = {
  "C18": ("Spec half: operation sequences from generated histories are applied to Register / WORegister / Vec; is_valid_step is compared with invoke for the actual and a perturbed return (and the resulting object state after a valid step), is_valid_history with invoking from the initial object. Harness half: seeded walks (deliveries, drops, crashes) of systems built from RegisterActor / WORegisterActor clients with the record_invocations / record_returns hooks around servers that answer each request at most once (direct, forwarding, delaying, silent; 1-2 servers, 1-3 clients, all network kinds); per client at most one outstanding request with a fresh id, and the recorded tester must equal a shadow tester fed with exactly the client-visible sends and accepted replies.", "5/C18", S4_NOTE + " " + S2_NOTE, "deterministic simulation (seeded histories and harness walks) + shadow-history oracle"),
 }
 
+
+# what rounds 4 and 5 of the seeded regressions added to each check (appended to the level text)
+ADD = {
+ "C01": " One run in 2000 explores a wide fan (2201-16601 states).",
+ "C02": " A quarter of the runs wait through join_and_report / report (the reporter's classification must fit the property kind); discovery(name), assert_any_discovery and assert_no_discovery are compared with discoveries(); one model in 40 has 62-79 properties.",
+ "C03": " Paths handed to a Reporter by report / join_and_report are judged like those of discoveries(); the symmetric process models carry eventually-properties and use symmetry() or symmetry_fn(); one model in 40 has 62-79 properties.",
+ "C04": " Both consistency testers are in the pool, built from the same per-thread scripts under different interleavings, with an independent rendering of what each must distinguish.",
+ "C05": " A quarter of the runs wait through join_and_report / report (std::thread::scope and std::sync::Mutex are simulation-aware since hook commit 7ed06bd); simulation runs that only the finish condition can stop; time passes between .timeout() and the spawn; every simulation process is pinned to one core so that available_parallelism is the same in workers, while shrinking and in replays.",
+ "C06": " Handlers also use Out::broadcast (empty, with repeats) and, rarely, emit 21-48 commands; crash budgets up to usize::MAX.",
+ "C07": " Initially empty networks are selected by name (Network::from_str); one run in 25 starts from 22-45 interleaved envelopes.",
+ "C08": " Clients may crash with an invocation in flight that may or may not have taken effect; on_invret is exercised and compared with event-by-event recording.",
+ "C09": " One run in 12 has an unlimited crash budget (usize::MAX and neighbours).",
+ "C10": " Plan checks also cover WORegisterMsg, WORegisterActorState and Envelope.",
+ "C11": " One run in 8 is DFS with / without symmetry and simulation with symmetry on symmetric process models with eventually-properties; many-property models contain eventually-properties exactly 64 positions apart.",
+ "C12": " Time passes between .timeout(d) and the spawn in a third of the runs with a timeout; simulation runs that only the finish condition can stop; a quarter of the runs wait through join_and_report / report.",
+ "C13": " One run in 2000 explores a wide fan (a breadth-first level of 1100-8300 states).",
+ "C14": " Copies are also made with clone_from onto fresh, invalidated and one-event-behind testers and must equal their source and answer alike; on_invret is exercised and compared with event-by-event recording; crashing clients.",
+ "C15": " Also compared action by action: whether each system takes the action at all (a self-loop is a transition, an ignored action is none); representative() of the wrapped and the bare WORegister system at every step; broadcasts and long handler outputs.",
+ "C16": " Wrapped actors include stateless responders (answer without touching their state).",
+ "C17": " Payloads end in opaque bytes (line terminators, NUL, 0xff) and are matched by digest; handler outputs of up to ~140 commands around a set-then-cancel of one timer; the socket must be bound to the address the id encodes; one run in eight injects a handler panic, after which the actor must stay silent.",
+ "C18": " Client-visible calls are also derived from the clients' own state (a client awaiting a new request id has made a call).",
+ "C19": " One run in 500 is NOT simulated: CheckerBuilder::serve is started on a loopback port in a real thread and the harness speaks HTTP/1.0 to it (routing, states along the reference walk and mutations of it, 404s, run-to-completion, status); only the content of replies that arrive is judged, slowness and I/O problems are probes.",
+}
+
 PENDING = {
 }
 
@@ -58,6 +82,7 @@ def main():
     for pid in props:
         if pid in CHECKS:
             text, ref, note, tech = CHECKS[pid]
+            text = text + ADD.get(pid, "")
             checks.append({
                 "property_id": pid,
                 "quick_cmd": f"./check {pid} --tier quick",
